@@ -132,6 +132,10 @@ pub fn create_credential_definition(
         config
     );
 
+    // identifier objects may come from deserialisation, which does not validate them
+    schema_id.validate()?;
+    issuer_id.validate()?;
+
     let credential_schema = build_credential_schema(schema)?;
     let non_credential_schema = build_non_credential_schema()?;
 
@@ -239,6 +243,9 @@ where
 {
     trace!("create_revocation_registry >>> cred_def: {:?}, tag: {:?}, max_cred_num: {:?}, rev_reg_type: {:?}",
              cred_def, tag, max_cred_num, rev_reg_type);
+
+    // identifier objects may come from deserialisation, which does not validate them
+    cred_def_id.validate()?;
 
     let credential_pub_key = cred_def.get_public_key().map_err(err_map!(
         Unexpected,
@@ -612,6 +619,10 @@ pub fn create_credential_offer(
     correctness_proof: &CredentialKeyCorrectnessProof,
 ) -> Result<CredentialOffer> {
     trace!("create_credential_offer >>> cred_def_id: {:?}", cred_def_id);
+
+    // identifier objects may come from deserialisation, which does not validate them
+    schema_id.validate()?;
+    cred_def_id.validate()?;
 
     let nonce = Nonce::new().map_err(err_map!(Unexpected, "Error creating nonce"))?;
 
